@@ -700,13 +700,16 @@ static void getConfigs(const simplecpp::TokenList &tokens, std::set<std::string>
                     elseError += ifcfg;
                 }
             }
-            if (!configs_if.empty())
+            const bool popped = !configs_if.empty();
+            if (popped)
                 configs_if.pop_back();
+            bool pushed = false;
             if (cmdtok->str() == "elif") {
                 std::string config = readcondition(cmdtok, defined, undefined);
                 if (isUndefined(config,undefined))
                     config.clear();
                 configs_if.push_back(std::move(config));
+                pushed = true;
                 ret.insert(cfg(configs_if, userDefines));
             } else if (!configs_ifndef.empty()) {
                 //Check if ifndef already existing in ret as more general/specific version
@@ -719,9 +722,14 @@ static void getConfigs(const simplecpp::TokenList &tokens, std::set<std::string>
                         ret.erase(it);
                     }
                     configs_if.push_back(configs_ifndef.back());
+                    pushed = true;
                     ret.insert(cfg(configs_if, userDefines));
                 }
             }
+            // keep one entry per open conditional so that the matching #endif does not pop the
+            // entry of the enclosing conditional
+            if (popped && !pushed)
+                configs_if.emplace_back();
         } else if (cmdtok->str() == "endif" && !sameline(tok, cmdtok->next)) {
             if (!configs_if.empty())
                 configs_if.pop_back();
